@@ -5,6 +5,7 @@
 (* caller keeping ownership - as PROGRAMS over render-data lifecycle events  *)
 (*    C  render data created        R  a frame rendered with the data       *)
 (*    F  _finalize_render_data_ invoked for the data                         *)
+(*    H  the data handed to _handle_interrupted_draw_ (a use of the data)    *)
 (*    Q  quiescence: operation over, references dropped, gc ran             *)
 (* with a failure injected into the k-th render, into size validation, or   *)
 (* as a KeyboardInterrupt while a frame is being written.                   *)
@@ -30,9 +31,9 @@ AnimRenders(loops, cache) == IF cache /\ loops > 1 THEN NFrames ELSE NFrames * l
 
 OpsStill ==
   {[op |-> o, fail |-> f, loops |-> 1, cache |-> FALSE, k |-> 0] :
-      o \in {"render", "str"}, f \in {"no", "exc"}}
+      o \in {"render", "str"}, f \in {"no", "exc", "finfail"}}
   \cup {[op |-> "draw_still", fail |-> f, loops |-> 1, cache |-> FALSE, k |-> 0] :
-      f \in {"no", "validation", "exc", "interrupt"}}
+      f \in {"no", "validation", "exc", "interrupt", "finfail"}}
 
 OpsAnim ==
   {[op |-> "draw_anim", fail |-> "no", loops |-> l, cache |-> c, k |-> 0] : l \in 1..2, c \in BOOLEAN}
@@ -48,6 +49,7 @@ OpsIter ==
   \cup {[op |-> o, fail |-> f, loops |-> 1, cache |-> FALSE, k |-> k] :
       o \in {"iter_exhaust", "owned_exhaust"}, f \in {"exc", "stop"}, k \in 1..2}
   \cup {[op |-> "owned_exhaust", fail |-> "no", loops |-> 1, cache |-> FALSE, k |-> 0]}
+  \cup {[op |-> "iter_exhaust", fail |-> "finfail", loops |-> 1, cache |-> FALSE, k |-> 0]}
 
 Valid(o) == o.fail \in {"exc", "stop", "interrupt"} /\ o.op = "draw_anim" => o.k <= AnimRenders(o.loops, o.cache)
 Ops == {o \in OpsStill \cup OpsAnim \cup OpsIter : Valid(o)}
@@ -56,7 +58,9 @@ Ops == {o \in OpsStill \cup OpsAnim \cup OpsIter : Valid(o)}
 Prog(o) ==
   CASE o.op \in {"render", "str"} -> <<"C", "R", "F", "Q">>
     [] o.op = "draw_still" ->
-         IF o.fail = "validation" THEN <<"C", "F", "Q">> ELSE <<"C", "R", "F", "Q">>
+         IF o.fail = "validation" THEN <<"C", "F", "Q">>
+         ELSE IF o.fail = "interrupt" THEN <<"C", "R", "H", "F", "Q">>
+         ELSE <<"C", "R", "F", "Q">>
     [] o.op = "draw_anim" ->
          IF o.fail = "validation" THEN <<"C", "F", "Q">>
          ELSE IF o.fail = "no" THEN <<"C">> \o Rep("R", AnimRenders(o.loops, o.cache)) \o <<"F", "Q">>
@@ -64,9 +68,9 @@ Prog(o) ==
          \* Ctrl-C while frame k is being written: frame k+1 was not rendered yet for k = 1
          \* (the first frame is written before the next is rendered); later frames are
          \* rendered one ahead of the write
-         ELSE <<"C">> \o Rep("R", o.k) \o <<"F", "Q">>
+         ELSE <<"C">> \o Rep("R", o.k) \o <<"H", "F", "Q">>
     [] o.op = "iter_exhaust" ->
-         IF o.fail = "no" THEN <<"C">> \o Rep("R", NFrames) \o <<"F", "Q">>
+         IF o.fail \in {"no", "finfail"} THEN <<"C">> \o Rep("R", NFrames) \o <<"F", "Q">>
          ELSE <<"C">> \o Rep("R", o.k) \o <<"F", "Q">>
     [] o.op \in {"iter_close", "iter_drop"} -> <<"C">> \o Rep("R", o.k) \o <<"F", "Q">>
     [] o.op = "owned_exhaust" ->
@@ -83,6 +87,9 @@ LStep(st, e) ==
          [] e = "R" -> IF lc = "live" THEN st
                        ELSE IF lc = "final" THEN <<lc, "frame rendered with finalized data">>
                        ELSE <<lc, "render without data">>
+         [] e = "H" -> IF lc = "live" THEN st
+                       ELSE IF lc = "final" THEN <<lc, "finalized data handed to the interrupted-draw handler">>
+                       ELSE <<lc, "handler without data">>
          [] e = "F" -> IF lc = "live" THEN <<"final", "">>
                        ELSE IF lc = "final" THEN <<lc, "finalized more than once">>
                        ELSE <<lc, "finalize without data">>
